@@ -268,8 +268,10 @@ def main(mod, tier, seed):
         'wall_s': round(wall, 2),
         'violations': len(seen),
     }
-    os.makedirs(os.path.join(VERIF, 'evidence'), exist_ok=True)
-    with open(os.path.join(VERIF, 'evidence', '%s.json' % prop), 'w') as f:
+    # evidence describes runs against /repo itself; a run against a scratch copy (VERIF_REPO) writes elsewhere
+    evdir = os.path.join(VERIF, 'evidence') if os.path.abspath(REPO) == '/repo' else os.path.join(os.path.dirname(os.path.abspath(REPO)), 'evidence')
+    os.makedirs(evdir, exist_ok=True)
+    with open(os.path.join(evdir, '%s.json' % prop), 'w') as f:
         json.dump(ev, f, indent=1, default=str)
     print('%s tier=%s jobs=%d paths=%d obligations=%d discharged=%d inconclusive=%d known=%d violations=%d '
           'harness_errors=%d solver_s=%.1f wall_s=%.1f'
